@@ -280,6 +280,7 @@ pub fn run_case(case: &mut Case) {
     let mut o = GenOpts::general();
     o.cmd_depth = 2;
     o.max_named = 5;
+    o.twins = true;
     o.pure_fail = true;
     o.custom_help = true;
     let mut spec = gen_options(&mut rng, o);
